@@ -86,6 +86,16 @@ theorem sat_imp_chk (hW : W.Wf) : ∀ (h : Hint) (x : Obj), sat W h x = true →
     simp only [sat, Bool.and_eq_true] at hs
     simp only [chk, Bool.and_eq_true]
     exact ⟨sat_imp_chk hW h x hs.1, hs.2⟩
+  | .generic c bs, x, hs => by
+    simp only [sat, Bool.and_eq_true] at hs
+    simp only [chk, Bool.and_eq_true]
+    exact ⟨hs.1, satEvery_imp_chkEvery hW bs x hs.2⟩
+theorem satEvery_imp_chkEvery (hW : W.Wf) : ∀ (hs : List Hint) (x : Obj), satEvery W hs x = true → chkEvery W conf r hs x = true
+  | [], _, _ => by simp [chkEvery]
+  | h :: hs, x, hh => by
+    simp only [satEvery, Bool.and_eq_true] at hh
+    simp only [chkEvery, Bool.and_eq_true]
+    exact ⟨sat_imp_chk hW h x hh.1, satEvery_imp_chkEvery hW hs x hh.2⟩
 theorem satAny_imp_chkAny (hW : W.Wf) : ∀ (hs : List Hint) (x : Obj), satAny W hs x = true → chkAny W conf r hs x = true
   | [], _, h => by simp [satAny] at h
   | h :: hs, x, hh => by
